@@ -5,6 +5,8 @@ pub mod b58;
 pub mod hashes;
 pub mod script;
 pub mod secp;
+pub mod sighash;
+pub mod wire;
 
 pub fn selftest() -> Result<usize, String> {
     let mut n = 0;
@@ -13,6 +15,8 @@ pub fn selftest() -> Result<usize, String> {
     n += aes::selftest()?;
     n += secp::selftest()?;
     n += b58::selftest()?;
+    n += wire::selftest()?;
+    n += sighash::selftest()?;
     Ok(n)
 }
 
